@@ -21,25 +21,25 @@ func init() {
 	logging.Root().SetHandler(logging.DiscardHandler())
 }
 
-// universeMiss is the panic payload of the guard: a mutator was called with an address (or a
-// storage key) that the observations of this pass do not cover. The pass is abandoned; it is
-// a limit of the generator's foresight, not a property violation.
-type universeMiss struct{ what string }
-
 // guardDB is the vm.StateDB handed to the EVM: the real *state.StateDB with every mutator of
 // the account state passing through a membership test (or, in the discovery pass, extending
-// the universe). It changes no behaviour.
+// the universe). It changes no behaviour. A mutator call with an address (or storage key) the
+// observations of this pass do not cover marks the pass as "missed": from then on the oracle
+// is silent for the rest of the pass (its observations are no longer closed) and the pass is
+// counted as abandoned. That is a limit of the generator's foresight, not a property violation.
 type guardDB struct {
 	*state.StateDB
 	u        *Universe
 	discover bool
+	missed   bool
+	missWhat string
 }
 
 func (g *guardDB) see(a common.Address) {
 	if g.discover {
 		g.u.add(a)
-	} else if !g.u.has(a) {
-		panic(universeMiss{"address " + a.Hex()})
+	} else if !g.u.has(a) && !g.missed {
+		g.missed, g.missWhat = true, "address "+a.Hex()
 	}
 }
 
@@ -51,8 +51,8 @@ func (g *guardDB) SetCode(a common.Address, c []byte)      { g.see(a); g.StateDB
 func (g *guardDB) Suicide(a common.Address) bool           { g.see(a); return g.StateDB.Suicide(a) }
 func (g *guardDB) SetState(a common.Address, k, v common.Hash) {
 	g.see(a)
-	if new(big.Int).SetBytes(k[:]).Cmp(big.NewInt(nKeys)) >= 0 {
-		panic(universeMiss{"storage key " + k.Hex()})
+	if new(big.Int).SetBytes(k[:]).Cmp(big.NewInt(nKeys)) >= 0 && !g.missed {
+		g.missed, g.missWhat = true, "storage key "+k.Hex()
 	}
 	g.StateDB.SetState(a, k, v)
 }
@@ -166,16 +166,8 @@ func runPass(r *kit.Run, prog *Program, u *Universe, spec *passSpec) (res *passR
 	st := buildState(prog, o.rootBytes)
 	o.st = st
 	guard := &guardDB{StateDB: st, u: u, discover: spec.mode == "discovery"}
-
-	defer func() {
-		if v := recover(); v != nil {
-			if m, ok := v.(universeMiss); ok {
-				res.missed, res.missWhat = true, m.what
-				return
-			}
-			panic(v)
-		}
-	}()
+	o.guard = guard
+	defer func() { res.missed, res.missWhat = guard.missed, guard.missWhat }()
 
 	cfg := &vm.Config{
 		RuntimeConfig: vm.RuntimeConfig{JumpTable: vm.GetJumpTable(params.EvmIstanbul)}, // what core.CombineVMConfig builds for every protocol version
